@@ -378,7 +378,15 @@ unsafe fn sse42_strstr_short(haystack: &[u8], needle: &[u8]) -> Option<usize> {
         let remaining = haystack.len() - offset;
         let chunk_len = remaining.min(CHUNK_SIZE);
 
-        let chunk = unsafe { _mm_loadu_si128(haystack.as_ptr().add(offset) as *const __m128i) };
+        // Never load past the end of the slice: the last (< 16 byte) windows go through a
+        // zero-padded stack copy; PCMPESTRI only looks at the first `chunk_len` bytes.
+        let chunk = if remaining >= CHUNK_SIZE {
+            unsafe { _mm_loadu_si128(haystack.as_ptr().add(offset) as *const __m128i) }
+        } else {
+            let mut tail = [0u8; CHUNK_SIZE];
+            tail[..remaining].copy_from_slice(&haystack[offset..]);
+            unsafe { _mm_loadu_si128(tail.as_ptr() as *const __m128i) }
+        };
 
         // _SIDD_CMP_EQUAL_ORDERED: Match ordered substring
         let idx = unsafe {
